@@ -413,7 +413,13 @@ func (w *world) teardown() {
 	case <-done:
 	case <-time.After(200 * time.Millisecond): // the shape lock is held by stuck goroutines
 	}
+	// Listener.Close leaves a goroutine behind that waits for the last connection: let it
+	// finish inside the case, so that a panic there (it kills the process) is journalled
+	// with the case that caused it instead of striking between two cases.
+	kit.Eventually(300*time.Millisecond, func() bool { return kit.GoroutinesMatching(listenerCloseRe) == 0 })
 }
+
+var listenerCloseRe = regexp.MustCompile(`trafficshape\.\(\*Listener\)\.Close`)
 
 func (w *world) failf(sig, format string, args ...interface{}) { w.v.Addf(sig, format, args...) }
 
